@@ -143,3 +143,110 @@ package scheduler
 //@   at send 1 ghost nsent = nsent + 1
 //@   at go 1 assert [C03] successor-on-same-channels: arg0 == readyc && arg1 == donec
 //@   at go 1 ghost nspawn = nspawn + 1
+
+// ---------------------------------------------------------------------------
+// The Scheduler Loop.
+//
+// Ghost state: counters of channel events (the "reality" the loop's own
+// counters are compared with), the set of jobs received so far, whether the
+// close of enqueuec has been observed.
+//
+// Rely conditions (each is the proved guarantee of another function, an API
+// precondition from the package documentation, or a Go channel rule):
+//   enqueue arm   - a received job is non-nil, not seen before, has zero
+//                   loop-owned state (Enqueue's postcondition); its
+//                   dependencies are non-nil jobs received earlier (API:
+//                   dependencies were returned by earlier Enqueue calls; FIFO)
+//   done arm      - a result is for a dispatched, not yet reported job (worker:
+//                   one result per received job, Job == that job)
+//   ownership     - no other goroutine writes the loop-owned fields (C12 frame)
+
+//@ macro SJ = "*go.uber.org/cff/scheduler.ScheduledJob"
+//@ macro OUT = nDisp - nRes
+//@ macro L1 = forall(i, int, implies(listlo(ready) <= i && i < listhi(ready), typeof(listat(ready, i)) == typeid($SJ) && dataof(listat(ready, i)) != 0))
+//@ macro I1 = forall(d, ScheduledJob, implies(in(d, enq), forall(i, int, implies(0 <= i && i < len(d.consumers), d.consumers[i] != nil))))
+//@ macro I2 = forall(d, ScheduledJob, implies(in(d, enq), d != nil && forall(i, int, implies(0 <= i && i < len(d.deps), d.deps[i] != nil && in(d.deps[i], enq)))))
+//@ macro I3 = forall(d, ScheduledJob, implies(in(d, enq), forall(i, int, implies(0 <= i && i < len(d.consumers), in(d.consumers[i], enq)))))
+//@ macro I4 = forall(d, ScheduledJob, len(d.consumers) >= 0 && len(d.deps) >= 0)
+
+//@ func (*Scheduler).run
+//@   ghost nEnq int = 0
+//@   ghost nEnqDeps int = 0
+//@   ghost nDisp int = 0
+//@   ghost nRes int = 0
+//@   ghost closedSeen bool = false
+//@   ghost drained bool = false
+//@   ghost lastErr error = 0
+//@   ghost enq set[ref]
+//@   ghost tk ref = 0
+//@   at call NewTicker 1 ghost tk = ret
+//@   requires s != nil
+//@   requires new-channels: s.readyc != nil && s.finishedc != nil && s.enqueuec != nil && s.donec != nil && !closed(s.readyc) && !closed(s.finishedc) && s.readyc != s.finishedc
+//@   requires new-donec-capacity: cap(s.donec) == s.concurrency && s.concurrency >= 1
+//@   requires new-err-nil: s.err == nil
+//@   requires sentinel-initialised: errJobInvalid != nil
+//
+//   main loop
+//@   loop 1 invariant [C19,C03,C06] A1-pending-is-ready-waiting-ongoing: pending == listlen(ready) + waiting + ongoing
+//@   loop 1 invariant [C19,C03,C06] A2-ongoing-bounded: 0 <= ongoing && ongoing <= s.concurrency
+//@   loop 1 invariant [C19] A3-counters-match-channel-events: ongoing == $OUT && pending == nEnq - nRes && nRes <= nDisp && 0 <= nRes && 0 <= nEnq
+//@   loop 1 invariant [C19] A4-waiting-bounded: waiting <= nEnqDeps && nEnqDeps <= nEnq && listlen(ready) >= 0
+//@   loop 1 invariant [C05] K1-enqueue-arm: (enqueuec == nil) == closedSeen && implies(enqueuec != nil, enqueuec == s.enqueuec)
+//@   loop 1 invariant [C07] E1-failfast-no-error-yet: implies(!s.continueOnError, s.err == nil)
+//@   loop 1 invariant L1-ready-entries-are-jobs: $L1
+//@   loop 1 invariant I1-consumers-non-nil: $I1
+//@   loop 1 invariant I2-deps-non-nil: $I2
+//@   loop 1 invariant I3-consumers-enqueued: $I3
+//
+//   select
+//@   at select 1 arm 1 expect send
+//@   at select 1 arm 2 expect recv
+//@   at select 1 arm 3 expect recv
+//@   at select 1 arm 4 expect recv
+//@   at select 1 arm 1 assert [C05,C03] L4-dispatch-arm-is-readyc: ch == s.readyc
+//@   at select 1 arm 1 assert [C03,C06] dispatch-gated-by-free-worker: ongoing < s.concurrency
+//@   at select 1 arm 1 assert [C01] guarantee-dispatch-sends-non-nil-front: sent != nil && listlen(ready) > 0 && dataof(listat(ready, listlo(ready))) == sent
+//@   at select 1 arm 1 ghost nDisp = nDisp + 1
+//@   at select 1 arm 2 assert [C05] L4-enqueue-arm-is-enqueuec: ch == s.enqueuec && !closedSeen
+//@   at select 1 arm 2 assume rely-enqueue-fresh-zero-job: implies(recvok, recv != nil && !in(recv, enq) && recv.remaining == 0 && len(recv.consumers) == 0 && !recv.done && recv.err == nil && !recv.invalid)
+//@   at select 1 arm 2 assume rely-api-deps-enqueued-earlier: implies(recvok, len(recv.deps) >= 0 && forall(i, int, implies(0 <= i && i < len(recv.deps), recv.deps[i] != nil && in(recv.deps[i], enq))))
+//@   at select 1 arm 2 ghost nEnq = nEnq + ite(recvok, 1, 0)
+//@   at select 1 arm 2 ghost nEnqDeps = nEnqDeps + ite(recvok && len(recv.deps) > 0, 1, 0)
+//@   at select 1 arm 2 ghost enq = ite(recvok, add(enq, recv), enq)
+//@   at select 1 arm 2 ghost closedSeen = !recvok
+//@   at select 1 arm 3 assert [C05] L4-done-arm-is-donec: ch == s.donec
+//@   at select 1 arm 3 assume rely-worker-one-result-per-dispatched-job: nRes < nDisp && recv.Job != nil && in(recv.Job, enq)
+//@   at select 1 arm 3 ghost nRes = nRes + 1
+//@   at select 1 arm 3 ghost lastErr = recv.Err
+//@   at select 1 arm 4 assert [C19] ticker-arm-only-with-emitter: emitter != nil
+//
+//   state report (arg0 is the emitter, arg1 the State)
+//@   at call Emit 1 pre assert [C19] report-pending: arg1.Pending == arg1.Ready + arg1.Waiting + $OUT && arg1.Pending == nEnq - nRes
+//@   at call Emit 1 pre assert [C19] report-ready: arg1.Ready == listlen(ready) && arg1.Ready >= 0
+//@   at call Emit 1 pre assert [C19] report-executing-bounded: 0 <= $OUT && $OUT <= arg1.Concurrency
+//@   at call Emit 1 pre assert [C19] report-idle: arg1.IdleWorkers == arg1.Concurrency - $OUT && arg1.IdleWorkers >= 0
+//@   at call Emit 1 pre assert [C19] report-concurrency: arg1.Concurrency == s.concurrency
+//@   at call Emit 1 pre assert [C19] report-pending-le-submitted: arg1.Pending <= nEnq
+//@   at call Emit 1 pre assert [C19] report-waiting-le-submitted-with-deps: arg1.Waiting <= nEnqDeps
+//
+//   enqueue arm: loop over the new job's dependencies
+//@   loop 2 invariant remaining-counts-subscriptions: 0 <= job.remaining && job.remaining <= idx2 && idx2 <= len(job.deps)
+//@   loop 2 invariant $I1 && $I2 && $I3
+//
+//   done arm: loop 4 notifies the consumers of the finished job
+//@   loop 4 invariant [C19] A1-in-notify-loop: pending == listlen(ready) + waiting + ongoing
+//@   loop 4 invariant [C19] A4-in-notify-loop: waiting <= nEnqDeps && listlen(ready) >= 0
+//@   loop 4 invariant L1-in-notify-loop: $L1
+//
+//   exits
+//@   ensures@return1 [C07] failfast-exit-records-the-failure: !s.continueOnError && s.err == lastErr && s.err != nil
+//@   ensures@return2 [C07,C05] normal-exit-everything-reported: nEnq == nRes && closedSeen
+//@   ensures@return2 [C07] normal-exit-failfast-means-no-error: implies(!s.continueOnError, s.err == nil)
+//@   ensures [C05,C06] exit-closes-readyc-and-finishedc: closed(s.readyc) && closed(s.finishedc)
+//@   ensures [C05] exit-drains-enqueuec-until-closed: drained
+//@   ensures [C06] exit-outstanding-results-fit-donec: $OUT <= cap(s.donec)
+//@   ensures [C19,C06] exit-stops-ticker: implies(emitter != nil, tk != 0 && stopped(tk))
+
+//@ func (*Scheduler).run$1
+//@   inline
+//@   at recv 1 ghost drained = !recvok
